@@ -410,8 +410,13 @@ impl UpdateJob {
         mut batch: RecordBatch,
         updates: Arc<HashMap<String, Arc<dyn PhysicalExpr>>>,
     ) -> DFResult<RecordBatch> {
+        // As in SQL, every SET expression sees the row as it was before the update,
+        // regardless of the (unordered) iteration order of the updates.
+        let original = batch.clone();
         for (column, expr) in updates.iter() {
-            let new_values = expr.evaluate(&batch)?.into_array(batch.num_rows())?;
+            let new_values = expr
+                .evaluate(&original)?
+                .into_array(original.num_rows())?;
             batch = batch.replace_column_by_name(column.as_str(), new_values)?;
         }
         Ok(batch)
